@@ -296,14 +296,15 @@ STACK_ASSUME = [
     'a consistency checker only reads its two files (the handles keep denoting the same inodes and stay read-only) and its verdict is a function of the two files '
     '(contract of the stand-in ConsistencyChecker::call, which replaces `Arc<dyn Fn(&mut File, &mut File) -> Result<()> + markers>`: T7)',
     'the generic public shims of ReadOnlyCache / Cache are specialised to `Key` (T11) or dropped (one forwarding call each)',
-    'Cache.consistency_checker and the read side were given the same checker by the builder (CacheBuilder is not under contract; stated as a precondition of get_or_update)',
+    'Cache.consistency_checker and the read side hold the same checker: precondition of get_or_update, established by CacheBuilder::build from the builder invariant that '
+    'arc_consistency_checker / clear_consistency_checker are proved to maintain (the derived Default, i.e. both None, and the generic wrapper consistency_checker(impl Fn) -> Arc::new are not under contract)',
     'populate callback (stand-in call_populate, T1): it writes only the file it is handed and may read anything; on success what it wrote is by definition a value supplied for this key; '
     'any error it returns is counted in World.app_errors',
     'judge callback (precondition judge_reads_only of get_or_update): it hands back the same handle (it may read and seek it)',
     'read-only roots hold only files that other Kismet writers published (World.ro_valid, part of the invariant the stubs preserve because no mutating stub accepts a path under a read-only root)',
     'std::io::copy, tempfile::{tempfile, tempfile_in, NamedTempFile::{new_in, as_file_mut, into_parts}} as written in contracts/prelude (copy is one atomic step; anonymous temporary files have no name)',
     'T14: `opt.and_then(|c| c.get(key).transpose()).transpose()` is rewritten to the equal match expression; `self.write_side.as_ref().map(Arc::as_ref)` to the stand-in opt_arc_as_ref',
-    'Cache::ensure (one forwarding call to get_or_update with the constant judge Promote and an adapter closure) and the CacheBuilder are not under contract',
+    'Cache::ensure (one forwarding call to get_or_update with the constant judge Promote and an adapter closure) and the directory-adding builder methods are not under contract',
 ]
 _u4('C13', 'Unbounded proof, for stacks of any depth: ReadOnlyCache::get/touch return / mark the copy of the first level in registration order that holds one '
     '(first_copy) and report a miss only if no level holds one; Cache::get::doit / touch::doit consult the write cache first. Cache::get_or_update (the verbatim body, generic in '
